@@ -260,7 +260,7 @@ macro_rules! storage_new {
             kani::cover!(start as usize == T, "start at tip");
             kani::cover!(has_end && e == T as u64, "end at tip");
             kani::cover!(!has_end && start == 0, "whole chain");
-            kani::cover!(start > 0 && has_end && e < T as u64, "inner range");
+            kani::cover!(T <= 2 || (start > 0 && has_end && e < T as u64), "inner range"); // start < end rules it out for T <= 2
             core::mem::forget(cs);
             core::mem::forget(options);
         }
